@@ -80,6 +80,14 @@ def cone_for(algo, conf, draw, allow_Kgtm=True, dims=(2, 3)):
 
 
 @st.composite
+def st_rescaled_cone(draw, m, extra):
+    base = draw(gen.st_diag_cone(m, extra))
+    W = gen.cone_W(base) if base["kind"] == "diag" else np.eye(m)
+    f = [draw(st.sampled_from([0.25, 0.5, 1.0, 2.0, 4.0])) for _ in range(len(W))]
+    return {"kind": "W", "W": (W * np.array(f)[:, None]).tolist()}
+
+
+@st.composite
 def st_cone_for(draw, algo, conf, allow_Kgtm=True, m=None):
     if algo in ("EpsilonPAL", "Auer"):
         mm = m or draw(st.sampled_from([2, 2, 3]))
@@ -90,6 +98,9 @@ def st_cone_for(draw, algo, conf, allow_Kgtm=True, m=None):
     if algo == "NaiveElimination" and draw(st.booleans()):
         return draw(gen.st_theta())
     opts = [gen.st_bundled(mm), gen.st_diag_cone(mm, extra)]
+    if conf == "ell" and algo in ("PaVeBa", "PaVeBaGP", "PaVeBaPartialGP"):
+        # cones whose facets have clearly different alpha: non-unit / redundant rows (dyadic, integer) and rescaled rows
+        opts += [gen.st_dyadic_cone(mm, extra), gen.st_int_cone(mm, extra), st_rescaled_cone(mm, extra)]
     spec = draw(st.one_of(*opts))
     if extra == 0 and spec["kind"] == "ice":
         spec = {"kind": "c3d", "type": draw(st.sampled_from(["acute", "right", "obtuse"]))}
